@@ -18,11 +18,11 @@ type RTItem struct {
 }
 
 type RTFamily struct {
-	ID    string
-	Gen   func(tier string) []RTItem
-	Check func(it *RTItem, r *RTResult) []Issue
-	Bound func(tier string) int
-	Clock bool
+	ID         string
+	Gen        func(tier string) []RTItem
+	Check      func(it *RTItem, r *RTResult) []Issue
+	Bound      func(tier string) int
+	Clock      bool
 	OutcomeKey func(r *RTResult) string
 	// SecondEvery > 0: every SecondEvery-th item is also executed AFTER another request of the same kind in the same process
 	// (different port, TTL range and flags) and must be judged the same and observe the same hops as when it comes first
